@@ -850,6 +850,26 @@ F_C17_step(cfg, pre, post) ==
                 ELSE post.trk.hl = pre.trk.hl /\ post.trk.ht = pre.trk.ht)
             \cup Chk("C17.history-timestamps-monotone", post.trk.ht >= pre.trk.ht)
 
+\* state_probabilities: hist = <<date, tracker state>> of every change (observer, from the logged states);
+\* probs = windows [a, b, res] where res lists the code's share un/ud of each state it returned
+F_C17_final(cfg, outcome, hist, probs) ==
+    IF cfg.tracker = "none" \/ outcome # "returned" THEN {}
+    ELSE
+    LET Dur(a, b, st) ==
+            \* time spent in state st inside [a, b]: interval j of the history is [t_j, t_{j+1}), the last one open-ended
+            SumSeq([j \in DOMAIN hist |->
+                      IF hist[j][2] # st THEN 0
+                      ELSE LET lo == Max2(hist[j][1], a)
+                               hi == IF j = Len(hist) THEN b ELSE Min2(hist[j + 1][1], b)
+                           IN Max2(hi - lo, 0)])
+    IN Chk("C17.probabilities-are-time-shares", \A w \in DOMAIN probs :
+            LET p == probs[w]
+            IN ~p.err /\ \A r \in DOMAIN p.res : p.res[r].un * (p.b - p.a) = Dur(p.a, p.b, p.res[r].s) * p.res[r].ud)
+       \cup Chk("C17.probabilities-cover-visited-states", \A w \in DOMAIN probs :
+            LET p == probs[w]
+            IN \A j \in DOMAIN hist : Dur(p.a, p.b, hist[j][2]) > 0 =>
+                  \E r \in DOMAIN p.res : p.res[r].s = hist[j][2])
+
 ----------------------------------------------------------------------------
 (* C18 deadlock detection.  dg = set of edges <<n1, s1, n2, s2>> of the detector's digraph.     *)
 
@@ -1032,6 +1052,7 @@ ObsAfter(cfg, pre, post, ob) ==
         af == AttFold(pre, post, 1, ob.att, [busy |-> ob.busy, tot |-> ob.tot])
     IN [rt |-> RtAfter(cfg, post, ob.rt), gb |-> GbFold(post.steps, 1, ob.gb),
         att |-> af.att, busy |-> af.busy, tot |-> af.tot,
+        hist |-> IF ob.hist[Len(ob.hist)][2] = st THEN ob.hist ELSE Append(ob.hist, <<post.now, st>>),
         seen |-> IF \E a \in DOMAIN ob.seen : ob.seen[a][1] = st THEN ob.seen ELSE Append(ob.seen, <<st, post.now>>)]
 
 \* Known findings (DESIGN.md section 7): trigger predicates over one observed step.  A trace is tainted
